@@ -225,6 +225,7 @@ def explore(seq, full):
                     _old = _np.geterr()
                     with _w.catch_warnings():
                         _w.simplefilter("error")
+                        _w.filterwarnings("ignore", category=SyntaxWarning)   # compile-time warnings of a (re)import are not part of the call
                         _np.seterr(all="raise")
                         try:
                             apply(o, op)
